@@ -2101,3 +2101,84 @@ def r10_6(ctx):
                 else:
                     ctx.ok(('udp::dispatch', 'metadata source is unicast'), sample=dict(fn='udp::Socket::dispatch', uses_local_address='only if is_unicast()'))
     ctx.need(n >= 1, "test of packet_meta.local_address in udp dispatch")
+
+
+@rule('R06.16', ['C06', 'C08', 'C10'], floor=4, clause='an emitter defines the same header bits whether or not it computes the checksum itself: with checksum generation switched off (offloaded) the checksum field and its flag bits are still written (zeroed), not left to the previous buffer content')
+def r06_16(ctx):
+    from ..bitfield import setter_stores, Undecided
+    from .c06 import _method_maps, in_scope
+    F = ctx.F
+    maps = _method_maps(F)
+    txm = F.method('phy::Checksum', 'tx')
+    ctx.need(txm is not None, "phy::Checksum::tx")
+    n = 0
+    for k, b in sorted(F.bodies.items()):
+        if not k.startswith('wire::') or '::test' in k or k.rsplit('::', 1)[-1] not in ('emit', 'emit_header'):
+            continue
+        if not in_scope_repr(F, k):
+            continue
+        on = set(guard_edges(F, b, p_call(lambda n_: n_ == txm.key, True)))
+        off = set(guard_edges(F, b, p_call(lambda n_: n_ == txm.key, False)))
+        if not on or not off:
+            continue
+
+        def defined(cut):
+            blocks = set(b.reachable(cut_edges=cut))
+            try:
+                M = setter_stores(F, b, None, only_blocks=blocks, lenient=True, submaps=maps)
+            except Undecided:
+                return None
+            return {(byte, i) for byte, bits in M.items() for i, x in enumerate(bits) if x != ('b', byte, i)}
+        d_on, d_off = defined(off), defined(on)       # cut the opposite edges
+        if d_on is None or d_off is None or not d_on:
+            continue
+        n += 1
+        short = k.split('wire::', 1)[1]
+        missing = sorted(d_on - d_off)
+        if missing:
+            ctx.bad(f"{short}|checksum-off-leaves-bits", f"{short}: with checksum generation off the emitter leaves byte/bit {missing[:6]} undefined that it writes when it computes the "
+                    "checksum: the checksum field / its flag bit keep the previous buffer content instead of a consistent zero", body=b)
+        else:
+            ctx.ok((short, 'same bits either way'), sample=dict(emit=short, bits_defined=len(d_on)))
+    ctx.need(n >= 4, f"emitters with a checksum capability switch (found {n})")
+
+
+@rule('R08.10', ['C08', 'C06', 'C20'], floor=1, clause='the 6LoWPAN UDP emitter writes the checksum field and its "carried in-line" flag on every path - a consistent zero when checksum generation is switched off - as the plain UDP emitter does')
+def r08_10(ctx):
+    F = ctx.F
+    b = ctx.method('wire::sixlowpan::nhc::UdpNhcRepr', 'emit')
+    sc = F.method('wire::sixlowpan::nhc::UdpNhcPacket', 'set_checksum')
+    ctx.need(sc is not None, "UdpNhcPacket::set_checksum")
+    calls = {x[0] for x in b.calls() if b.callee_name(x[1]) == sc.key}
+    ctx.need(calls, "set_checksum call in UdpNhcRepr::emit")
+    seen = b.reachable(cut_blocks=calls)
+    if any(r in seen for r in b.return_blocks()):
+        ctx.bad("sixlowpan::nhc::UdpNhcRepr::emit|checksum-field-unwritten", "UdpNhcRepr::emit returns on a path (checksum generation off) without writing the checksum field or its C flag: "
+                "header_len() reserves the two octets, which keep the previous buffer content, and a stale C bit makes the receiver read the header with the wrong layout", body=b)
+    else:
+        ctx.ok(('UdpNhcRepr::emit', 'checksum field always written'), sample=dict(fn='UdpNhcRepr::emit', writes='set_checksum on every path'))
+
+
+@rule('R06.17', ['C06', 'C10'], floor=2, clause='the link-layer address options of NDISC are padded explicitly: after the address, the rest of the 8-octet-aligned option is written (zeroed) by emit')
+def r06_17(ctx):
+    F = ctx.F
+    R = 'wire::ndiscoption::Repr'
+    em = ctx.method(R, 'emit')
+    for v in ('SourceLinkLayerAddr', 'TargetLinkLayerAddr'):
+        cut = set(guard_edges(F, em, lambda f: (f[0] == 'is' and leafs(f[1]) == {'A:1'} and f[3] == R and f[2] != v) or
+                              (f[0] == 'isnot' and leafs(f[1]) == {'A:1'} and f[3] == R and v in f[2])))
+        blocks = set(em.reachable(cut_edges=cut))
+        pads = []
+        for x in em.calls():
+            if x[0] not in blocks:
+                continue
+            nm = em.callee_name(x[1]) or ''
+            if nm.rsplit('::', 1)[-1] == 'fill' and x[2]:
+                o = F.origin.operand(em, x[2][0], x[0], len(em.blocks[x[0]]['s']))
+                if any('buffer' in l for l in leafs(o)) and const_of(F.origin.operand(em, x[2][1], x[0], len(em.blocks[x[0]]['s']))) == 0:
+                    pads.append(x[0])
+        if pads:
+            ctx.ok((v, 'padding zeroed'), sample=dict(option=v, pads='fill(0) behind the address'))
+        else:
+            ctx.bad(f"ndiscoption::Repr::{v}|padding-unwritten", f"ndiscoption::Repr::emit writes the {v} option's address but not the padding behind it: with an 8-octet IEEE 802.15.4 address "
+                    "the option is 16 octets long and its last 6 octets keep the previous buffer content (they are covered by the ICMPv6 checksum and go out on the wire)", body=em)
